@@ -33,7 +33,7 @@ def sym_unit_struct(sim, prog):
     from program import units_enabled
     if not units_enabled(prog):
         return Struct(Q.unit_ty(prog), ())
-    return Struct(Q.unit_ty(prog), (Sym("U.m", prim("i8")), Sym("U.s", prim("i8"))))
+    return Q.unit_value(sim, prog, Sym("U.m", prim("i8")), Sym("U.s", prim("i8")))
 
 
 def dt(a, b):
